@@ -73,7 +73,8 @@ def join_case(draw, tier):
     c["buffersize"] = draw(st.sampled_from([None, None, 1, 2, 3]))
     # inputs that are themselves sort views on the join key (ascending or descending): the operator must not take them
     # for sorted input unless they are
-    c["upstream"] = [draw(st.sampled_from(["none", "none", "none", "asc", "desc"])) for _ in range(2)]
+    # ("asc-spelled": the sort view's key is written exactly the way the join's key argument is)
+    c["upstream"] = [draw(st.sampled_from(["none", "none", "none", "asc", "desc", "asc-spelled"])) for _ in range(2)]
     # presorted=True on inputs the harness has sorted by the key (only where every key cell is present: a cell filled in by
     # squaring up would be sorted as None by the harness and as `missing` by the operator)
     c["presorted"] = draw(st.integers(0, 3)) == 0
@@ -127,10 +128,12 @@ def check_join(case, ctx):
     if case.get("selfjoin"):
         Rs = Ls
         ctx.label("selfjoin")
+    lsp = refkw.get("key", refkw.get("lkey")) if ups[0] == "asc-spelled" else None
+    rsp = refkw.get("key", refkw.get("rkey")) if ups[1] == "asc-spelled" else None
     if ups[0] != "none":
-        Ls = etl.sort(Ls, tuple(lki), reverse=ups[0] == "desc")
+        Ls = etl.sort(Ls, tuple(lki) if lsp is None else lsp, reverse=ups[0] == "desc")
     if ups[1] != "none":
-        Rs = etl.sort(Rs, tuple(rki), reverse=ups[1] == "desc")
+        Rs = etl.sort(Rs, tuple(rki) if rsp is None else rsp, reverse=ups[1] == "desc")
     if ups != ["none", "none"]:
         ctx.label("upstream-sortview")
     if (case.get("presorted") and ups == ["none", "none"] and not case.get("selfjoin") and lki
